@@ -16,6 +16,8 @@ def make_chooser(sched):
     if k == 'rank':
         return V.RankChooser(sched.get('ranks', {}), default=sched.get('default', 50),
                              timer_rank=sched.get('timer', 50))
+    if k == 'delay':
+        return V.DelayChooser(sched['node'], sched.get('after', 0))
     raise ValueError(sched)
 
 
